@@ -1,5 +1,6 @@
 // sim/props/thr_worker.cpp -- thrsim worker: C18 C11 C19 C10 (one fork()ed child per seed from a warmed-up single-threaded parent)
 #include "message/Message.h"
+#include "util/NetworkUtilityFunctions.h"
 #include "c18.h"
 #if __has_include("c11.h")
 # include "c11.h"
@@ -19,6 +20,11 @@ static void Warmup()
    // Touch the lazily constructed statics the workloads use, single-threaded, so that every child starts from the same address space.
    {muscle::ReaderWriterMutex rw; (void) rw.LockReadOnly(); (void) rw.UnlockReadOnly(); (void) rw.LockReadWrite(); (void) rw.UnlockReadWrite();}
    {muscle::MessageRef m = muscle::GetMessageFromPool(1); (void) m()->AddInt32("x", 1);}
+   // The socket pool is a function-local static whose constructor passes a Mutex hook: if it were first constructed inside a simulated run, the scheduler could park the
+   // constructing thread while it holds the C++ static-initialisation guard, and a second thread needing the same static would then block for real (found by seed 555:
+   // two ThreadPools starting their first threads at once).  Construct it -- and the default Socket object a released Socket is reset from -- here.
+   {muscle::ConstSocketRef a, b; (void) muscle::CreateConnectedSocketPair(a, b, false);}
+   (void) muscle::GetInvalidSocket();
 #if __has_include("c11.h")
    c11::WarmupStatics();
 #endif
